@@ -1,0 +1,23 @@
+// SPDX-FileCopyrightText: 2026 The Pion community <https://pion.ly>
+// SPDX-License-Identifier: MIT
+
+//go:build verif && verif_c20 && !js
+
+package webrtc
+
+import "github.com/pion/datachannel"
+
+// VerifHandleOpen exposes handleOpen (the step that attaches the underlying
+// pion/datachannel, stores the open state and starts the read loop) to the
+// verification harness (property C20).
+func (d *DataChannel) VerifHandleOpen(dc *datachannel.DataChannel, isRemote, isAlreadyNegotiated bool) {
+	d.handleOpen(dc, isRemote, isAlreadyNegotiated)
+}
+
+// VerifReadLoopStarted reports whether handleOpen has started the read loop.
+func (d *DataChannel) VerifReadLoopStarted() bool {
+	d.mu.RLock()
+	defer d.mu.RUnlock()
+
+	return d.readLoopActive != nil
+}
